@@ -430,6 +430,16 @@ func propC14(r *kernel.Run) {
 				}
 			}
 			class = fmt.Sprintf("legacy-version-%04x-supported-versions-%v/%s", ver, sv, cls)
+			var then []byte
+			if tp.Draw(3) == 0 {
+				// a modern, acceptable hello carrying a well-signed fetch request - and then something that is not TLS at all
+				ver, sv = 0x0303, true
+				freq, _ := BuildFetch(HonestSpec(NewIdent("f")))
+				fb, _ := proto.Marshal(freq)
+				list = chunkALPN(nodeenrollment.FetchNodeCredsNextProtoV1Prefix, base64.RawStdEncoding.EncodeToString(fb))
+				then = []byte(Pick2(tp, "GET / HTTP/1.0\r\n\r\n", "HEAD / HTTP/1.1\r\n\r\n", "POST /x HTTP/1.1\r\n\r\n", "PUT /x HTTP/1.1\r\n\r\n", "OPTIONS * HTTP/1.1\r\n\r\n", "SSH-2.0-x\r\n"))
+				class = "valid-hello-then-plaintext-protocol"
+			}
 			payload := handMadeClientHello(ver, sv, list, tp.Bytes(32))
 			r.Sched.Go(name, "adversary", func() {
 				c, err := w.Net.Dial(w.Addr, name)
@@ -439,6 +449,10 @@ func propC14(r *kernel.Run) {
 				c.Write(payload)
 				buf := make([]byte, 4096)
 				c.Read(buf) // whatever the server answers (an alert, a ServerHello)
+				if then != nil {
+					c.Write(then)
+					c.Read(buf)
+				}
 				c.Close()
 			})
 			r.Count("fault.hand_made_client_hello", 1)
